@@ -8,6 +8,7 @@ UNIT = dict(
   items=[
     ('laythe_vm/src/byte_code.rs', ['struct Label', ('impl Label', ['new', 'val']), 'enum CaptureIndex', 'enum SymbolicByteCode']),
     ('laythe_core/src/object/fun.rs', ['enum FunKind']),
+    ('laythe_vm/src/compiler/ir/ast.rs', ['enum BinaryOp', 'enum UnaryOp']),   # named by the shared compilerd spec
     ('laythe_vm/src/compiler/mod.rs', ['struct TryAttributes', 'struct LoopAttributes', ("impl<'a, 'src: 'a> Compiler<'a, 'src>", ['catch'])]),
   ],
   rewrites=[
